@@ -284,6 +284,46 @@ func commitMatchesDigest(run *evid.Run, round int) {
 	}
 }
 
+// concurrentSessionCreation: several goroutines resume the same, not yet existing, upload id at once
+// (the registry creates the session on first use). Whatever the schedule, there is one session per
+// id: every successful Write must be visible to a later resume of that id.
+func concurrentSessionCreation(run *evid.Run, round int) {
+	reg := ocimem.New()
+	id := fmt.Sprintf("fresh-upload-%d", round)
+	nG := 2 + round%7
+	var wg sync.WaitGroup
+	var okWrites atomic.Int64
+	start := make(chan struct{})
+	for g := 0; g < nG; g++ {
+		wg.Add(1)
+		go func(g int) {
+			defer wg.Done()
+			<-start
+			w, err := reg.PushBlobChunkedResume(bg, "r", id, -1, 0)
+			if err != nil {
+				return
+			}
+			if n, err := w.Write([]byte{byte('a' + g)}); err == nil && n == 1 {
+				okWrites.Add(1)
+			}
+		}(g)
+	}
+	close(start)
+	wg.Wait()
+	run.Eval(1)
+	run.Count("session_creation_rounds", 1)
+	run.Distinct(fmt.Sprintf("session-creation/goroutines=%d/procs=%d", nG, runtime.GOMAXPROCS(0)))
+	w, err := reg.PushBlobChunkedResume(bg, "r", id, -1, 0)
+	if err != nil {
+		run.Violation("invariant/session-creation/resume-failed", "resuming the upload after concurrent creation failed: "+err.Error(), map[string]any{"round": round})
+		return
+	}
+	if got := w.Size(); got != okWrites.Load() {
+		run.Violation("invariant/session-creation/writes-lost", fmt.Sprintf("%d goroutines resumed the new upload id %q concurrently and %d one-byte writes succeeded, but the upload holds %d bytes: more than one session was created for one id", nG, id, okWrites.Load(), got),
+			map[string]any{"round": round, "goroutines": nG, "successful_writes": okWrites.Load(), "upload_size": got})
+	}
+}
+
 // ---------- 3. linearizability
 
 type hop struct {
@@ -669,6 +709,9 @@ func main() {
 		}
 		for k := 0; k < 5; k++ {
 			commitMatchesDigest(run, r*5+k)
+		}
+		for k := 0; k < run.N(400, 2000); k++ {
+			concurrentSessionCreation(run, r*10000+k)
 		}
 	}
 	runtime.GOMAXPROCS(16)
